@@ -276,6 +276,43 @@ func (e *EvalCtx) eval(n *XNode) Val {
 			}
 			sa, pa, oka := pick(qa, qb)
 			sb, pb, okb := pick(qb, qa)
+			if !(oka && okb) {
+				// one read indexed by offset(q_i) + q_k (an item's bytes or names inside a concatenation): re-parameterise q_k only and
+				// trigger on the read together with the offset term
+				for _, pair := range [][2]string{{qb, qa}, {qa, qb}} {
+					qk, qi := pair[0], pair[1]
+					done := false
+					for _, r := range reads {
+						shift, lin := linearShift(r.idx, qk)
+						if !lin || !containsSym(shift, qi) || strings.Contains(r.ref, "q_") || strings.Contains(r.off, "q_") || strings.Contains(strings.Join(r.arrs, " "), "q_") {
+							continue
+						}
+						offTerm := ""
+						for _, part := range append([]string{shift}, splitTop(shift)...) {
+							if strings.HasPrefix(part, "(") && !strings.HasPrefix(part, "(+ ") && !strings.HasPrefix(part, "(- ") && containsSym(part, qi) && !containsSym(part, qk) {
+								offTerm = part
+								break
+							}
+						}
+						if offTerm == "" {
+							continue
+						}
+						for _, a := range r.arrs {
+							if strings.Contains(body, "(select "+a+" ") {
+								sub := "(- " + qk + "_abs " + plus(r.off, shift) + ")"
+								nb := replaceSym(body, qk, sub)
+								v := fmt.Sprintf("(%s ((%s Int) (%s_abs Int)) (! %s :pattern ((select (select %s %s) %s_abs) %s)))", n.Op, qi, qk, nb, a, r.ref, qk, offTerm)
+								if n.Op == "exists" {
+									return S{or(orig, v), boolT}
+								}
+								return S{and(orig, v), boolT}
+							}
+						}
+						done = true
+					}
+					_ = done
+				}
+			}
 			if oka && okb {
 				nb := replaceSym(replaceSym(body, qa, sa), qb, sb)
 				v := fmt.Sprintf("(%s ((%s_abs Int) (%s_abs Int)) (! %s :pattern (%s %s)))", n.Op, qa, qb, nb, pa, pb)
